@@ -64,6 +64,11 @@ CLAIMED = {
          "Static decision of structural necessary conditions of C15: signed-index guards (errors not panics), immutability of standard channels and partition predicates, encodability and exact round trip through the MAC codecs of every frequency/DR the band tables hold (all 38 configurations), and exactness of the initial CFList masks. Behaviour after arbitrary AddChannel/Disable/Enable histories (lookups, CFList of custom channels) is runtime state and is not decided.",
          "Trusts internal/tables, internal/absint, go/ssa dominators. ISM2400 frequencies that only NewChannelReq can carry are listed known findings.",
          "DESIGN.md §3 C15"),
+
+ "C10": ("summary-based alias/effect analysis on go/ssa (separate loc and reach facts per value, typed heap, VTA dispatch, stdlib effect table), SSA definite-assignment over receiver field trees, must-held-lock dataflow; in-process positive fixture",
+         "Static decision of the structural clauses of C10 over all 1 091 module functions: no decoder retains its input, no encoder leaks receiver memory, no exported function appends in place to caller-visible memory or reslices beyond len, read-only operations write nothing, every decoder overwrites every receiver leaf on every successful return, band constructors return fresh memory reaching no global, and every package-level variable is either never written after init or accessed only under its mutex. This is lock/alias discipline on all paths, not a schedule exploration; stdlib race freedom is assumed.",
+         "Trusts go/ssa, the VTA call graph, the stdlib effect table in internal/effects/stdlib.go; known gaps: control dependence on old values, x[:0] resets.",
+         "DESIGN.md §3 C10"),
 }
 
 NOT_APPLICABLE = {
